@@ -56,6 +56,13 @@ def random_op(rng, files, weights):
         return {"op": "swap", "a": a, "b": b}
     if k == "touch":
         return {"op": "touch", "path": rng.choice(files)}
+    if k == "edit":
+        # a small in-place edit anywhere in the file (often far from its start), same path
+        kind = rng.choice(("dup_line", "lost_line", "swap_lines", "flip_byte"))
+        arg = rng.randrange(0, 400)
+        if kind == "flip_byte":
+            arg = [rng.randrange(0, 4000), rng.choice((0x20, 0x41, 0x7a))]
+        return {"op": "corrupt", "path": rng.choice(files), "kind": kind, "arg": arg}
     if k == "set_yml":
         return {"op": "set_yml", "patterns": None if rng.random() < 0.2 else _patterns(rng),
                 "verbose": rng.choice((None, None, True, False))}
@@ -97,7 +104,7 @@ def random_op(rng, files, weights):
     raise KeyError(k)
 
 
-BASE_WEIGHTS = {"write": 6, "delete": 2, "rename": 3, "swap": 2, "touch": 1, "set_yml": 1, "set_gitignore": 1,
+BASE_WEIGHTS = {"write": 6, "delete": 2, "rename": 3, "swap": 2, "touch": 1, "edit": 2, "set_yml": 1, "set_gitignore": 1,
                 "set_cli": 1, "set_version": 1, "identity": 1.5, "cache_fault": 0.0, "clock": 1, "scan": 5,
                 "report": 0.7, "findings": 0.7, "set_git": 0.4, "set_spelling": 0.4, "set_env": 0.3}
 
